@@ -43,6 +43,27 @@ fn mk<T: Copy>(elems: [T; 6], variant: usize) -> Matrix<T> {
     m
 }
 
+fn mk_empty<T: Default + Clone>(variant: usize) -> Matrix<T> {
+    let (r, c) = [(0usize, 3usize), (0, 3), (3, 0), (0, 0)][variant % 4];
+    let mut m = Matrix::<T>::with_default((r, c)).unwrap();
+    if variant % 4 != 0 {
+        m.switch_order();
+    }
+    m
+}
+
+fn keeps_shape_on_empty<T: Default + Clone>(f: &dyn Fn(Matrix<T>) -> Matrix<T>) -> bool {
+    for ev in 0..4 {
+        let e = mk_empty::<T>(ev);
+        let (enr, enc, eo) = (e.nrows(), e.ncols(), e.order());
+        match catch_unwind(AssertUnwindSafe(|| f(e))) {
+            Ok(g) if g.nrows() == enr && g.ncols() == enc && g.order() == eo => {}
+            _ => return false,
+        }
+    }
+    true
+}
+
 fn classify<T: Bits + PartialEq>(
     src: &Matrix<T>,
     got: std::thread::Result<Matrix<T>>,
@@ -84,12 +105,14 @@ macro_rules! forms {
                 let m = src.clone();
                 let refs_src = src.clone();
                 let _ = &refs_src;
-                let got = catch_unwind(AssertUnwindSafe(|| {
-                    let m = m;
-                    let f: &dyn Fn(Matrix<$t>) -> Matrix<$t> = &$body;
-                    f(m)
-                }));
-                out.push(classify(&src, got, $s, l, r));
+                let f: &dyn Fn(Matrix<$t>) -> Matrix<$t> = &$body;
+                let got = catch_unwind(AssertUnwindSafe(|| f(m)));
+                let mut cls = classify(&src, got, $s, l, r);
+                // the same form on element-less matrices in both orders: shape and order are those of the operand
+                if !keeps_shape_on_empty::<$t>(f) {
+                    cls = 'X';
+                }
+                out.push(cls);
             }};
         }
         // Matrix<t> with scalar t / &t
